@@ -139,7 +139,7 @@ class Executor:
                 r2 = dict(ranges)
                 r2[rv] = (s, min(tile, start + size - s))
                 self._exec(nodes, i + 1, r2, path, None)
-        elif k == "storage":
+        elif k in ("storage", "toll"):
             self._storage(nodes, i, ranges, path)
         elif k == "seq":
             for b in n["branches"]:
